@@ -61,7 +61,8 @@ let rec p_val c : fval =
       let rec go () = if peek c = ')' then (adv c; VUnit) else begin
           let a = p_val c in if peek c = ',' then adv c; let b = go () in VPair (a, b) end in
       go ()
-  | _ -> VZ (z_of_dec (take_while c is_num))
+  | _ -> let d = take_while c is_num in
+         if d = "" || d = "-" then raise (Parse ("value at " ^ string_of_int c.i ^ " in " ^ c.s)) else VZ (z_of_dec d)
 
 let ty_of s = p_ty { s; i = 0 }
 let val_of s = p_val { s; i = 0 }
